@@ -110,6 +110,9 @@ impl Program {
 
         let new_file = MScriptFile::open(Rc::clone(&path))?;
 
+        #[cfg(mscript_verif)]
+        crate::verif_hooks::dump_file(&new_file);
+
         {
             let mut exports = self.module_cache.borrow_mut();
             exports.insert(
@@ -286,6 +289,9 @@ impl Program {
         log::info!("Loading instructions from file...");
         let entrypoint = self.get_file(&path)?;
         log::info!("Loaded instructions from file");
+
+        #[cfg(mscript_verif)]
+        crate::verif_hooks::dump_file(&entrypoint);
 
         {
             let mut cache_view = self.module_cache.borrow_mut();
